@@ -461,7 +461,9 @@ impl<'a, 'b, CS: ChainStore + VersionbitsIndexer + 'static> BlockTxsVerifier<'a,
             .map(|(_, completed)| completed)
             .cloned()
             .collect();
-        if !ret.is_empty() {
+        // A result computed with scripts skipped (assume-valid) carries no script verdict and
+        // zero cycles; caching it would make a later full verification skip the scripts too.
+        if !ret.is_empty() && !skip_script_verify {
             self.update_cache(ret);
         }
 
